@@ -88,12 +88,16 @@ class Ctx:
 
     def event(self, kind, n=1):
         self.events[kind] += n
+        if kind.startswith("re-evaluated"):
+            # a second evaluation of the same case: it must not be counted as another distinct case
+            self._mute_distinct = True
 
     def exc(self, op, e):
         self.exceptions[f"{op}:{type(e).__name__}"] += 1
 
     def distinct_add(self, key):
-        self.distinct.add(digest(key))
+        if not getattr(self, "_mute_distinct", False):
+            self.distinct.add(digest(key))
 
     def set_add(self, name, key):
         self.extra_sets.setdefault(name, set()).add(digest(key))
@@ -180,6 +184,7 @@ def run_cases(oracle, ctx, indices, stop_after_violations=200):
     """Run oracle.run_case for each index with its own deterministic RNG."""
     for idx in indices:
         ctx.case_idx = idx
+        ctx._mute_distinct = False
         rng = random.Random(case_seed(ctx.seed, ctx.prop, idx))
         try:
             oracle.run_case(ctx, rng, idx)
